@@ -3,7 +3,9 @@ package main
 import (
 	"bytes"
 	"context"
+	"encoding/json"
 	"fmt"
+	"html"
 	"regexp"
 	"sort"
 	"strings"
@@ -300,6 +302,7 @@ func runC05(r *Run) {
 		r.Case("includes", coq, obs, map[string]any{"files": srcs}, map[string]string{}, nontrivial)
 	}
 	c05LoopLeak(r)
+	c05JSONLooking(r)
 }
 
 // includes inside loops: what an include is given lives in the component instance only; after the loop
@@ -307,8 +310,8 @@ func runC05(r *Run) {
 // same name is what it was (direct oracle: the expectation is written down, not modelled)
 func c05LoopLeak(r *Run) {
 	files := map[string]string{
-		"row.vuego":   `<i data-row="1">{{ item }}{{ item.name }}{{ label }}{{ title }}</i>`,
-		"needs.vuego": `<template :required="item"><b>needs:{{ item }}</b></template>`,
+		"row.vuego":    `<i data-row="1">{{ item }}{{ item.name }}{{ label }}{{ title }}</i>`,
+		"needs.vuego":  `<template :required="item"><b>needs:{{ item }}</b></template>`,
 		"needsl.vuego": `<template :required="label"><b>needs:{{ label }}</b></template>`,
 	}
 	loops := []string{
@@ -361,6 +364,58 @@ func c05LoopLeak(r *Run) {
 					sig2 := map[string]string{"oracle": "loop-include-no-leak", "loop": fmt.Sprint(li), "props": fmt.Sprint(pi), "what": "required"}
 					r.Fail("a component that requires a name is satisfied by a name given to an earlier include inside a loop", sig2, map[string]any{"case": desc, "then": need, "err": fmt.Sprint(err2)})
 				}
+			}
+		}
+	}
+}
+
+var c05PropProbe = regexp.MustCompile(`(?s)<i data-p="1">\[(.*?)\]</i>`)
+
+// c05JSONLooking: a string prop that is not a complete JSON document reaches the component as that string,
+// however much of it looks like JSON (the documented decoding applies to complete JSON arrays and objects only).
+func c05JSONLooking(r *Run) {
+	vals := []string{"[1] Introduction", "[2024] Annual report", "{} is an empty object", `{"a":1} and more`, "[1,2] [3]", "[] x", "[1]]", `{"k":"v"}}`,
+		"[abc", "{x}", "[", "{", "[1,", "[tag] title", "{{", "[[1]] 2", "[true]false", `["a"] "b"`, "[1] ", " [1] x"}
+	m := fstest.MapFS{"item.vuego": &fstest.MapFile{Data: []byte(`<i data-p="1">[{{ title }}]</i>`)}}
+	forms := []struct{ name, tpl string }{
+		{"static", `<template include="item.vuego" title="%s"></template>`},
+		{"interpolated", `<template include="item.vuego" title="{{ v }}"></template>`},
+		{"interpolated-prefix", `<template include="item.vuego" title="{{ pre }}{{ rest }}"></template>`},
+		{"bound", `<template include="item.vuego" :title="v"></template>`},
+		{"in-loop", `<p v-for="x in one"><template include="item.vuego" :title="v"></template></p>`},
+	}
+	for _, v := range vals {
+		var probe any
+		if json.Unmarshal([]byte(v), &probe) == nil {
+			continue // a complete JSON document: decoded, as documented
+		}
+		for _, f := range forms {
+			src := f.tpl
+			if f.name == "static" {
+				src = fmt.Sprintf(f.tpl, html.EscapeString(v))
+			}
+			cut := len(v) / 2
+			data := map[string]any{"v": v, "pre": v[:cut], "rest": v[cut:], "one": []any{1}}
+			var buf bytes.Buffer
+			var err error
+			func() {
+				defer func() {
+					if x := recover(); x != nil {
+						err = fmt.Errorf("PANIC %v", x)
+					}
+				}()
+				err = vuego.NewFS(m).Fill(data).RenderString(context.Background(), &buf, src)
+			}()
+			r.Eval("jsonlooking:"+f.name+":"+v, true, nil)
+			r.Count("stream:json-looking-prop(oracle only)")
+			sig := map[string]string{"oracle": "json-looking-prop", "form": f.name}
+			got := ""
+			if mm := c05PropProbe.FindStringSubmatch(buf.String()); mm != nil {
+				got = html.UnescapeString(mm[1])
+			}
+			if err != nil || strings.TrimSpace(got) != strings.TrimSpace(v) {
+				r.Fail("a string prop that is not a JSON document does not reach the component as that string", sig,
+					map[string]any{"template": src, "component": `<i data-p="1">[{{ title }}]</i>`, "value": v, "received": got, "output": buf.String(), "err": fmt.Sprint(err)})
 			}
 		}
 	}
